@@ -144,6 +144,35 @@ func (w *world) history(id string, check bool) {
 			w.checkRoots(id)
 		}
 	}
+	// withUndo=1: the history may end with an undo of its last block (states "after Undo")
+	if verifParam("withUndo", 0) == 1 && len(w.recs) > 0 && verifChoose("undoLast", 0, 1) == 1 {
+		w.undoLast(id)
+		if check {
+			w.checkRoots(id + ".after-undo")
+		}
+	}
+}
+
+// undoLast undoes the most recent block on every forest (and resets the stump / RM to the earlier state).
+func (w *world) undoLast(id string) {
+	if len(w.recs) == 0 {
+		return
+	}
+	r := w.recs[len(w.recs)-1]
+	w.recs = w.recs[:len(w.recs)-1]
+	na := uint64(len(r.b.adds))
+	if w.p != nil {
+		verifAssert(w.p.Undo(na, r.b.proof, r.b.hashes, r.prevRoots) == nil, id+".pollard.undo-ok")
+	}
+	if w.full != nil {
+		verifAssert(w.full.Undo(na, r.b.proof, r.b.hashes, r.prevRoots) == nil, id+".mapfull.undo-ok")
+	}
+	if w.part != nil {
+		verifAssert(w.part.Undo(na, r.b.proof, r.b.hashes, r.prevRoots) == nil, id+".mappartial.undo-ok")
+		w.partHeld = c14Union(r.prevHeld, r.b.delSlots)
+	}
+	w.rm = r.rm
+	w.st = Stump{Roots: refCopyHashes(r.v.roots), NumLeaves: r.v.n}
 }
 
 // HarnessC01History: every implementation vs RM after every block.
